@@ -66,7 +66,7 @@ func verifProp_C07_Open() func(*rapid.T) {
 			return
 		}
 		sealed := c.want() // the reference's output: C06 judges Seal itself
-		open := func(n, ct, ad []byte) ([]byte, error) { return a.Open(nil, n, ct, ad) }
+		open := func(n, ct, ad []byte) ([]byte, error) { c.dirty(); return a.Open(nil, n, ct, ad) }
 		r := gen.Rand(t, "mutseed")
 		var muts []c07Mut
 		add := func(name string, n, ct, ad []byte) { muts = append(muts, c07Mut{name: name, nonce: n, ct: ct, aad: ad}) }
